@@ -291,7 +291,7 @@ def probe(fn):
 
 def may_iterate(o):
     """is `tuple(o)` free of side effects on o?  (never on iterators / generators / unknown foreign objects)"""
-    return isinstance(o, (list, tuple, set, frozenset)) or type(o) in KIT_CLASSES
+    return issubclass(type(o), (list, tuple, set, frozenset)) or type(o) in KIT_CLASSES
 
 
 def describe_heap(roots):
@@ -317,7 +317,11 @@ def describe_heap(roots):
         o = order[i]
         i += 1
         t = type(o)
-        d = {'ty': t.__name__, 'tyrepr': str(t), 'dict': t is dict, 'str': safe_text(o), 'ph': placeholder(o)}
+        # str() of the built-in containers is not probed: it expands shared sub-structures as a tree (exponential in
+        # DAG-shaped data) and the collector renders them by size; would the code start to use it, the model (which
+        # then sees "raises") disagrees
+        d = {'ty': t.__name__, 'tyrepr': str(t), 'dict': t is dict,
+             'str': None if t in (dict, list, tuple, set, frozenset) else safe_text(o), 'ph': placeholder(o)}
         ok, v = probe(lambda: len(o))
         d['len'] = v if ok and isinstance(v, int) else {'raises': v if not ok else 'not an int'}
         d['items'] = [[*key_text(k), idx(o[k])] for k in list(o.keys())] if t is dict else []
@@ -874,6 +878,35 @@ def gen_graph(rng, n, lim, share=0.2, hostile=0, exotic=0.06, outside=False):
     return specs
 
 
+def expansion_cost(specs, roots, cap=10 ** 6):
+    """size of the text str() would produce for the roots (shared sub-structures are expanded as a tree)"""
+    memo = {}
+    stack = set()
+
+    def cost(i):
+        if i in memo:
+            return memo[i]
+        if i in stack:
+            return 1
+        s = specs[i]
+        t = s['t']
+        kids = []
+        if t in ('list', 'mylist', 'tuple', 'set', 'frozenset', 'exc'):
+            kids = s['e']
+        elif t in ('dict', 'mydict'):
+            kids = [j for _, j in s['k']]
+        stack.add(i)
+        c = 1 + (len(s['v']) // 8 if t == 'str' else 0)
+        for j in kids:
+            c += cost(j)
+            if c > cap:
+                break
+        stack.discard(i)
+        memo[i] = min(c, cap)
+        return memo[i]
+    return sum(cost(r) for r in roots)
+
+
 def gen_limits(rng, small=True):
     if small:
         return {'vars': rng.choice([0, 1, 3, 10, 10, 25, None]), 'str': rng.choice([0, 4, 8, 8, None]),
@@ -913,9 +946,13 @@ def gen_case(rng, lim=None, nobj=None, hostile=0.0, outside=False, nactions=1, s
              frame_type='single_frame', capture=None, mock_frames=0, locals_self=None, stream='main'):
     lim = lim if lim is not None else gen_limits(rng, small)
     n = nobj if nobj is not None else rng.choice([3, 6, 10, 16, 25, 40, 70])
-    specs = gen_graph(rng, n, lim, share=rng.choice([0.0, 0.1, 0.3, 0.5]), hostile=hostile, outside=outside)
-    nloc = rng.randint(0 if n > 3 else 1, min(8, n))
-    idxs = [rng.randrange(n) for _ in range(nloc)]
+    while True:
+        specs = gen_graph(rng, n, lim, share=rng.choice([0.0, 0.1, 0.3, 0.5]), hostile=hostile, outside=outside)
+        nloc = rng.randint(0 if n > 3 else 1, min(8, n))
+        idxs = [rng.randrange(n) for _ in range(nloc)]
+        # the agent computes str() of the whole locals dict (log text of process_variable): keep that affordable
+        if expansion_cost(specs, range(n)) <= 20000:
+            break
     if hostile or outside:
         idxs += [i for i, s in enumerate(specs) if s['t'] in ('hostile', 'outside')][:2]
     names = [x for x in NAMES if x != 'self']
